@@ -623,13 +623,13 @@ def impl_case(case):
     # after a branch condition has been recorded the symbol is read as the constant
     sub = []
     for d in dyn[:4]:
-        c2 = Concretization()
-        c2.process_dyn_params(dyn)
-        val = d.size_choices[-1]
-        c2.process_cond(d.size_symbol == val)
-        offs = [off for off, l in loads if l and l[0][0] and l[0][0][0] == d.size_symbol.decl().name()]
-        for off in offs[:1]:
-            sub.append([d.size_symbol.decl().name(), val, load(off, c2)])
+        for val in sorted({d.size_choices[-1], min(d.size_choices)}):
+            c2 = Concretization()
+            c2.process_dyn_params(dyn)
+            c2.process_cond(d.size_symbol == val)
+            offs = [off for off, l in loads if l and l[0][0] and l[0][0][0] == d.size_symbol.decl().name()]
+            for off in offs[:1]:
+                sub.append([d.size_symbol.decl().name(), val, load(off, c2)])
     obs["subst_loads"] = sub
 
     # ---- halmos' own instantiation of the calldata under a valuation (filled in by the parent)
@@ -695,14 +695,15 @@ def model_obs(case, res):
             items.append(["sym", f"p_{nm}_length", 256, ctr(k), sz])
     nd = res[i]
     i += 1
-    dyn = []
+    dyn, dyn_ids = [], []
     for _ in range(nd):
         nm, i = take_str(res, i)
         sz, i = take_nats(res, i)
         k, arr = res[i], res[i + 1]
         i += 2
         dyn.append([nm, sz, f"p_{nm}_length", ctr(k), bool(arr)])
-    return {"size": size, "static": bool(static), "items": items, "dyn": dyn}
+        dyn_ids.append(k)
+    return {"size": size, "static": bool(static), "items": items, "dyn": dyn, "dyn_ids": dyn_ids}
 
 
 def norm_ctr(c, base):
@@ -952,6 +953,9 @@ CORPUS = [
 
 
 def run(rep, tier):
+    import time
+
+    t0 = time.time()
     b = common.build_property(PID, TRANSLATORS)
     common.standard_obligations(rep, PID, b)
     exe = None
@@ -960,8 +964,9 @@ def run(rep, tier):
         rep.obligation("extraction of Model/AbiEncModel.v + Spec/AbiSpec.v entry points + OCaml driver build", exe is not None, "" if exe else log[-800:])
         if exe is None:
             rep.fail("broken-tie", "extracted model driver does not build: " + log[-400:], case={})
+    rep.coverage["build_s"] = round(time.time() - t0, 1)
     r = common.rng(PID)
-    ncases = 700 if tier == "quick" else 12000
+    ncases = 500 if tier == "quick" else 5000
     cases = [dict(c) for c in CORPUS]
     tries = 0
     while len(cases) < ncases and tries < 50 * ncases:
@@ -971,7 +976,7 @@ def run(rep, tier):
             cases.append(c)
     # the real objects (z3 terms) are needed for ByteVec.concretize: run in-process for a sample,
     # in a pool for the rest
-    n_inproc = 120 if tier == "quick" else 600
+    n_inproc = 40 if tier == "quick" else 600
     obs_list = [None] * len(cases)
     for i in range(min(n_inproc, len(cases))):
         obs_list[i] = _impl_worker(cases[i])
@@ -980,6 +985,7 @@ def run(rep, tier):
             rest = pool.map(_impl_worker, [{k: v for k, v in c.items()} for c in cases[n_inproc:]], chunksize=16)
         for i, o in enumerate(rest):
             obs_list[n_inproc + i] = o
+    rep.coverage["impl_s"] = round(time.time() - t0, 1)
     m = Model(exe) if exe is not None else None
     mres = m.parallel_batch([model_call(c) for c in cases]) if m else [None] * len(cases)
     stats = {"instances": 0, "decode_calls": []}
@@ -995,6 +1001,50 @@ def run(rep, tier):
             nbad += 1
             if nbad <= 12:
                 rep.fail(kind, what, case=extra, **({"sig": sig} if sig else {}))
+    # calldataload: extracted model vs the real SEVM.calldataload, for every size symbol
+    if m:
+        lcalls, lwant = [], []
+        for c, obs, mr in zip(cases, obs_list, mres):
+            if "error" in obs or not mr or mr[0] != 1 or "loads" not in obs:
+                continue
+            mo = model_obs(c, mr)
+            if "error" in mo or len(mo["dyn_ids"]) != len(obs["dyn"]):
+                continue
+            table = []
+            for k, d in zip(mo["dyn_ids"], obs["dyn"]):
+                table += [k, len(d[1])] + list(d[1])
+            by_name = {}
+            for off, brs in obs["loads"]:
+                if brs and brs[0][0] and brs[0][0][0] != "?":
+                    by_name.setdefault(brs[0][0][0], brs)
+            for k, d in zip(mo["dyn_ids"], obs["dyn"]):
+                brs = by_name.get(d[5])
+                if brs is None:
+                    continue
+                flat = [len(brs)]
+                for b in brs:
+                    pv = b[1][0] if len(b[1]) == 1 else ["?"]
+                    flat += [1, k, b[0][1] if b[0] else -1, 1 if pv[0] == "const" else 0, pv[1] if pv[0] == "const" else 0]
+                lcalls.append(("c12_calldataload", [0, len(obs["dyn"])] + table + [1, k]))
+                lwant.append((flat, {"type": c["type"], "cfg": c["cfg"], "param": d[0]}))
+            for nm, val, brs in obs["subst_loads"]:
+                j = next((i for i, d in enumerate(obs["dyn"]) if d[5] == nm), None)
+                if j is None:
+                    continue
+                k = mo["dyn_ids"][j]
+                flat = [len(brs)]
+                for b in brs:
+                    pv = b[1][0] if len(b[1]) == 1 else ["?"]
+                    flat += ([1, k, b[0][1]] if b[0] else [0, 0, 0]) + [1 if pv[0] == "const" else 0, pv[1] if pv[0] == "const" else 0]
+                lcalls.append(("c12_calldataload", [1, k, val, len(obs["dyn"])] + table + [1, k]))
+                lwant.append((flat, {"type": c["type"], "cfg": c["cfg"], "param": nm, "fixed_to": val}))
+        lout = m.parallel_batch(lcalls) if lcalls else []
+        for (want, pub), got in zip(lwant, lout):
+            if got != want:
+                nbad += 1
+                if nbad <= 12:
+                    rep.fail("broken-tie", f"calldataload: model branches {str(got)[:120]} implementation {str(want)[:120]}", case=pub)
+        rep.coverage["calldataload_model_runs"] = len(lcalls)
     # extracted Coq decoder on the instantiated calldata
     if m and stats["decode_calls"]:
         calls = stats["decode_calls"] if tier != "quick" else stats["decode_calls"][:400]
@@ -1006,7 +1056,7 @@ def run(rep, tier):
                     rep.fail("broken-tie", f"extracted Coq decode disagrees with the Python decoder of the spec: got {str(got)[:80]} want {str(want)[:80]}", case=pub)
         rep.coverage["coq_decode_runs"] = len(calls)
     # parse_type on valid and malformed type strings
-    pcases = gen_parse_cases(r, 300 if tier == "quick" else 6000)
+    pcases = gen_parse_cases(r, 300 if tier == "quick" else 4000)
     preal = [impl_parse(p) for p in pcases]
     pmodel = m.parallel_batch([("c12_parse", ser_jitem({"name": "", "type": "", "components": p})) for p in pcases]) if m else [None] * len(pcases)
     for p, a, mm in zip(pcases, preal, pmodel):
@@ -1026,6 +1076,7 @@ def run(rep, tier):
         elif m and mm != a:
             nbad += 1
             rep.fail("broken-tie", f"parse: model {str(mm)[:80]} implementation {str(a)[:80]} on {[j['type'] for j in p]}", case={"parse": p})
+    rep.coverage["total_s"] = round(time.time() - t0, 1)
     rep.coverage["instances_decoded"] = stats["instances"]
     rep.coverage["traces_validated_against_impl"] = len(cases) + len(pcases) if m else 0
     return rep.finish(
